@@ -177,52 +177,58 @@ def sigmaCut (pc : PC) (t : Term) (x : Ident) (body : Stmt) : Stmt :=
   | .prd => .cut t.ty t (.mu .cns x t.ty body)
   | .cns => .cut t.ty (.mu .prd x t.ty body) t
 
-/-- split an argument list at its leftmost non-variable argument `t`:
-    returns `t`, its chirality, and the list with `t` replaced by the variable `x` -/
-def Args.lift (x : Ident) : Args → Option (PC × Term × Args)
+/-- split an argument list at its leftmost non-variable argument `t`: returns the chirality of
+    `t`, `t` itself, and the list as a context `A[·]` around it -/
+def Args.split : Args → Option (PC × Term × (Term → Args))
   | .nil => none
   | .cons pc t r =>
     if t.isVar then
-      match Args.lift x r with
-      | some (c, u, r') => some (c, u, .cons pc t r')
+      match Args.split r with
+      | some (c, u, A) => some (c, u, fun h => .cons pc t (A h))
       | none => none
-    else some (pc, t, .cons pc (.var pc x t.ty) r)
+    else some (pc, t, fun h => .cons pc h r)
 
-/-- the ς-step of a statement, if it is unfocused -/
-def sigmaStep (x : Ident) : Stmt → Option Stmt
+/-- an unfocused statement read as `S[t]`: the leftmost non-variable argument `t` (of a
+    constructor/destructor/operator in a cut, a comparison, print, call or exit), its chirality,
+    and the context `S[·]`; `none` if all arguments are variables -/
+def Stmt.split : Stmt → Option (PC × Term × (Term → Stmt))
   | .cut ty (.xtor pc k as t) c =>
-    match Args.lift x as with
-    | some (c', u, as') => some (sigmaCut c' u x (.cut ty (.xtor pc k as' t) c))
+    match as.split with
+    | some (c', u, A) => some (c', u, fun h => .cut ty (.xtor pc k (A h) t) c)
     | none =>
       match c with
       | .xtor dpc d ds dt =>
-        match Args.lift x ds with
-        | some (c', u, ds') => some (sigmaCut c' u x (.cut ty (.xtor pc k as t) (.xtor dpc d ds' dt)))
+        match ds.split with
+        | some (c', u, D) => some (c', u, fun h => .cut ty (.xtor pc k as t) (.xtor dpc d (D h) dt))
         | none => none
       | _ => none
   | .cut ty p (.xtor dpc d ds dt) =>
-    match Args.lift x ds with
-    | some (c', u, ds') => some (sigmaCut c' u x (.cut ty p (.xtor dpc d ds' dt)))
+    match ds.split with
+    | some (c', u, D) => some (c', u, fun h => .cut ty p (.xtor dpc d (D h) dt))
     | none => none
   | .cut ty (.op a o b) c =>
-    if !a.isVar then some (sigmaCut .prd a x (.cut ty (.op (.var .prd x a.ty) o b) c))
-    else if !b.isVar then some (sigmaCut .prd b x (.cut ty (.op a o (.var .prd x b.ty)) c))
+    if !a.isVar then some (.prd, a, fun h => .cut ty (.op h o b) c)
+    else if !b.isVar then some (.prd, b, fun h => .cut ty (.op a o h) c)
     else none
   | .cut _ _ _ => none
   | .ifc s a b t e =>
-    if !a.isVar then some (sigmaCut .prd a x (.ifc s (.var .prd x a.ty) b t e))
-    else if !b.isVar then some (sigmaCut .prd b x (.ifc s a (.var .prd x b.ty) t e))
+    if !a.isVar then some (.prd, a, fun h => .ifc s h b t e)
+    else if !b.isVar then some (.prd, b, fun h => .ifc s a h t e)
     else none
-  | .ifz s a t e =>
-    if !a.isVar then some (sigmaCut .prd a x (.ifz s (.var .prd x a.ty) t e)) else none
-  | .print nl a n =>
-    if !a.isVar then some (sigmaCut .prd a x (.print nl (.var .prd x a.ty) n)) else none
+  | .ifz s a t e => if !a.isVar then some (.prd, a, fun h => .ifz s h t e) else none
+  | .print nl a n => if !a.isVar then some (.prd, a, fun h => .print nl h n) else none
   | .call f as ty =>
-    match Args.lift x as with
-    | some (c', u, as') => some (sigmaCut c' u x (.call f as' ty))
+    match as.split with
+    | some (c', u, A) => some (c', u, fun h => .call f (A h) ty)
     | none => none
-  | .exit a ty =>
-    if !a.isVar then some (sigmaCut .prd a x (.exit (.var .prd x a.ty) ty)) else none
+  | .exit a ty => if !a.isVar then some (.prd, a, fun h => .exit h ty) else none
+
+/-- the ς-step of an unfocused statement `S[t]`, with the fresh name `x`:
+    `⟨t | μ~x.S[x]⟩` for a producer `t`, `⟨μx.S[x] | t⟩` for a consumer `t` -/
+def sigmaStep (x : Ident) (s : Stmt) : Option Stmt :=
+  match s.split with
+  | some (pc, t, S) => some (sigmaCut pc t x (S (.var pc x t.ty)))
+  | none => none
 
 /-- values of arguments that are all variables -/
 def argVals (ρ : CEnv) : Args → Except Why (List CVal)
